@@ -1,8 +1,90 @@
-//! C13 harness entry (not implemented yet).
+//! C13: `ShapeTrait::contains` for Rect, Polygon, Path, called both on the concrete type and
+//! through the `Shape` enum. One case = one shape + many query points.
+//! Case: {"op": "rect"|"poly"|"path", "pts": [[x,y],...], "w": width, "qs": [[x,y],...]}
+//!    or {"op": ..., "pts": ..., "w": ..., "grid": [x0,y0,x1,y1]}  (all points, y outer, x inner)
+//! Result: {"r": [code,...]} with code 0 = false, 1 = true, 2 = panic (message in "panics"),
+//!         3 = the concrete type and the `Shape` enum disagree.
 use l21h::{json, Value};
+use layout21raw::{Path, Point, Polygon, Rect, Shape, ShapeTrait};
+use std::panic::{catch_unwind, AssertUnwindSafe};
 
-fn run(_case: &Value) -> Value {
-    json!({"harness_error": "not implemented"})
+fn pt(v: &Value) -> Point {
+    Point::new(
+        v[0].as_i64().expect("x: i64") as isize,
+        v[1].as_i64().expect("y: i64") as isize,
+    )
+}
+
+fn ask(f: &dyn Fn() -> bool, panics: &mut Vec<String>) -> Option<bool> {
+    match catch_unwind(AssertUnwindSafe(f)) {
+        Ok(b) => Some(b),
+        Err(p) => {
+            let msg = if let Some(s) = p.downcast_ref::<&str>() {
+                s.to_string()
+            } else if let Some(s) = p.downcast_ref::<String>() {
+                s.clone()
+            } else {
+                "panic".to_string()
+            };
+            if !panics.contains(&msg) {
+                panics.push(msg);
+            }
+            None
+        }
+    }
+}
+
+fn run(case: &Value) -> Value {
+    let op = case["op"].as_str().unwrap_or("");
+    let pts: Vec<Point> = case["pts"].as_array().expect("pts").iter().map(pt).collect();
+    let qs: Vec<Point> = if let Some(g) = case.get("grid").and_then(|g| g.as_array()) {
+        let g: Vec<isize> = g.iter().map(|v| v.as_i64().unwrap() as isize).collect();
+        let mut v = Vec::new();
+        for y in g[1]..=g[3] {
+            for x in g[0]..=g[2] {
+                v.push(Point::new(x, y));
+            }
+        }
+        v
+    } else {
+        case["qs"].as_array().expect("qs").iter().map(pt).collect()
+    };
+    let mut panics: Vec<String> = Vec::new();
+    let mut out: Vec<u8> = Vec::with_capacity(qs.len());
+    // Build the shape through the public API (public fields), once per case.
+    let (direct, shape): (Box<dyn Fn(&Point) -> bool>, Shape) = match op {
+        "rect" => {
+            let r = Rect { p0: pts[0].clone(), p1: pts[1].clone() };
+            let s = Shape::Rect(r.clone());
+            (Box::new(move |q| r.contains(q)), s)
+        }
+        "poly" => {
+            let p = Polygon { points: pts.clone() };
+            let s = Shape::Polygon(p.clone());
+            (Box::new(move |q| p.contains(q)), s)
+        }
+        "path" => {
+            let w = case["w"].as_u64().expect("w: u64") as usize;
+            let p = Path { points: pts.clone(), width: w };
+            let s = Shape::Path(p.clone());
+            (Box::new(move |q| p.contains(q)), s)
+        }
+        _ => return json!({"harness_error": "bad op"}),
+    };
+    for q in &qs {
+        let a = ask(&|| direct(q), &mut panics);
+        let b = ask(&|| shape.contains(q), &mut panics);
+        out.push(match (a, b) {
+            (Some(x), Some(y)) if x == y => x as u8,
+            (None, None) => 2,
+            _ => 3,
+        });
+    }
+    if panics.is_empty() {
+        json!({ "r": out })
+    } else {
+        json!({ "r": out, "panics": panics })
+    }
 }
 
 fn main() {
